@@ -449,10 +449,11 @@ type pump struct {
 	mu        sync.Mutex
 	published int // events handed to the bus so far (all resources; programs run one at a time)
 	byChan    map[uintptr]*subState
+	dead      map[uintptr]bool // channels of forgotten subscriptions whose forwarder has not said goodbye yet
 	wake      chan struct{}
 }
 
-var thePump = &pump{byChan: map[uintptr]*subState{}, wake: make(chan struct{}, 1)}
+var thePump = &pump{byChan: map[uintptr]*subState{}, dead: map[uintptr]bool{}, wake: make(chan struct{}, 1)}
 
 func (p *pump) hook(point string, obj any, args ...any) {
 	if point == "pub.before" || point == "del.removed" {
@@ -468,6 +469,15 @@ func (p *pump) hook(point string, obj any, args ...any) {
 	key := reflect.ValueOf(obj).Pointer()
 	p.mu.Lock()
 	s := p.byChan[key]
+	if s == nil && p.dead[key] {
+		// a forwarder of a subscription we have forgotten, still going about its last event: not the start of a
+		// new subscription (its channel is alive until its goroutine has said goodbye, so the address is its own)
+		if point == "fwd.exit" || point == "pid.exit" {
+			delete(p.dead, key)
+		}
+		p.mu.Unlock()
+		return
+	}
 	if s == nil { // Pull has not returned the channel to us yet
 		if point == "fwd.exit" || point == "pid.exit" {
 			// a forwarder we no longer track; its channel is alive during this call,
@@ -571,8 +581,19 @@ func (p *pump) adoptPid(open func() any) *subState {
 func (p *pump) forget(s *subState) {
 	p.mu.Lock()
 	delete(p.byChan, s.ch.Pointer())
-	if s.inner != nil && p.byChan[s.inner.key] == s.inner {
-		delete(p.byChan, s.inner.key)
+	if p.byChan[s.key] == s {
+		delete(p.byChan, s.key)
+	}
+	if !s.exited {
+		p.dead[s.key] = true
+	}
+	if s.inner != nil {
+		if p.byChan[s.inner.key] == s.inner {
+			delete(p.byChan, s.inner.key)
+		}
+		if !s.inner.exited {
+			p.dead[s.inner.key] = true
+		}
 	}
 	p.mu.Unlock()
 }
